@@ -1417,8 +1417,8 @@ def _real_cls(name):
 
 def _mk_real(clsname, shape, seed=0, dtype="float64"):
     rng = np.random.default_rng(seed + 7)
-    if dtype.startswith("int"):
-        a = rng.integers(-5, 50, size=shape).astype(dtype)
+    if dtype.startswith(("int", "uint")):
+        a = rng.integers(0 if dtype.startswith("u") else -5, 50, size=shape).astype(dtype)
     elif dtype.startswith("complex"):
         a = (rng.normal(size=shape) + 1j * rng.normal(size=shape)).astype(dtype)
     else:
@@ -1440,6 +1440,8 @@ def _view_diff(a, b, tol=0.0):
         out.append(f"class {type(a).__name__} vs {type(b).__name__}")
     if a.array.shape != b.array.shape or not np.allclose(a.array, b.array, rtol=tol, atol=tol, equal_nan=True):
         out.append(f"array differs (shapes {a.array.shape} vs {b.array.shape})")
+    if a.array.dtype != b.array.dtype:
+        out.append(f"array dtype {a.array.dtype} vs {b.array.dtype}")
     for nm in ("origin", "sampling"):
         x, y = np.asarray(getattr(a, nm), dtype=float), np.asarray(getattr(b, nm), dtype=float)
         if x.shape != y.shape or not np.allclose(x, y, rtol=1e-12, atol=0):
@@ -1723,6 +1725,10 @@ def fam_ops(tier="quick", seed=0):
                 a = dict(op[1])
                 a["modify_in_place"] = not a.get("modify_in_place", False)
                 yield dict(cls=clsname, shape=_shape(d, 4), ops=[[op[0], a]])
+                # data types whose operation result has ANOTHER dtype (mean / resample of integers, sums of narrow integers, float32):
+                # both variants must agree on values AND dtype
+                for dt in ("int32", "uint16", "float32"):
+                    yield dict(cls=clsname, shape=_shape(d, 4), ops=[op], dtype=dt)
 
 
 def fam_histories(tier="quick", seed=0):
@@ -1744,7 +1750,7 @@ def fam_histories(tier="quick", seed=0):
                         yield dict(cls=clsname, shape=_shape(d, 5), ops=[a, b, c])
         for r in range(4 if tier == "quick" else 60):
             ops = [(alpha + OPS_ERRORS)[int(i)] for i in rng.integers(0, len(alpha) + len(OPS_ERRORS), size=12)]
-            yield dict(cls=clsname, shape=_shape(d, 6), ops=ops, seed=int(seed + r))
+            yield dict(cls=clsname, shape=_shape(d, 6), ops=ops, seed=int(seed + r), dtype=("float64", "int32", "float32", "int64")[r % 4])
 
 
 def fam_index_vectors(tier="quick", seed=0):
@@ -1771,11 +1777,90 @@ def fam_index_vectors(tier="quick", seed=0):
                     yield dict(cls=clsname, shape=_shape(d), ops=[["getitem", [ent[v] for v in vec], False]], no_raise=True)
 
 
+SHAPED_FORMS = ("nested(ndim,k)", "2d(ndim,k)", "2d(ndim,1)", "2d(1,ndim)", "nested(1,ndim)", "nested(ndim,1)", "tuple-of-tuples(ndim,k)", "2d(k,ndim)", "0d")
+
+
+def _shaped_value(form, nd_, k):
+    tab = lambda r, c: (np.arange(float(r * c)).reshape(r, c) + 0.5)
+    if form == "nested(ndim,k)":
+        return tab(nd_, k).tolist()
+    if form == "2d(ndim,k)":
+        return tab(nd_, k)
+    if form == "2d(ndim,1)":
+        return tab(nd_, 1)
+    if form == "2d(1,ndim)":
+        return tab(1, nd_)
+    if form == "nested(1,ndim)":
+        return tab(1, nd_).tolist()
+    if form == "nested(ndim,1)":
+        return tab(nd_, 1).tolist()
+    if form == "tuple-of-tuples(ndim,k)":
+        return tuple(tuple(r) for r in tab(nd_, k).tolist())
+    if form == "2d(k,ndim)":
+        return tab(k, nd_)
+    if form == "0d":
+        return np.array(4.5)
+    raise ValueError(form)
+
+
+def rt_shaped_calibration(inp):
+    """nested / 2-d / 0-d calibration arguments (the validator flattens them): accepted => exactly one stored entry per axis with the
+    flattened values; otherwise ValueError/TypeError and the object unchanged - validate_ndinfo, both setters, all five constructors"""
+    import warnings
+    from quantem.core.utils.validators import validate_ndinfo
+
+    warnings.simplefilter("ignore")
+    nd_, form, k = inp["ndim"], inp["form"], inp.get("k", 2)
+    value = _shaped_value(form, nd_, k)
+    size = int(np.size(value))
+    flat = np.asarray(value, dtype=float).ravel()
+    problems = []
+    try:
+        r = validate_ndinfo(value, nd_, "origin")
+        if not isinstance(r, np.ndarray) or r.shape != (nd_,):
+            problems.append(f"validate_ndinfo({form}, ndim={nd_}) returned shape {np.shape(r)} ({size} entries in the argument)")
+        elif not np.array_equal(r, flat) or (isinstance(value, np.ndarray) and np.shares_memory(r, value)):
+            problems.append(f"validate_ndinfo({form}) changed the values / aliases its argument")
+    except (ValueError, TypeError) as e:
+        if size == nd_:
+            problems.append(f"validate_ndinfo({form}, ndim={nd_}) raised {type(e).__name__} although the argument has exactly {nd_} entries")
+    ds = _mk_real("Dataset", tuple(_shape(nd_)), 0) if nd_ else _real_cls("Dataset").from_array(np.array(1.0))
+    for attr in ("origin", "sampling"):
+        before = _digest(ds)
+        try:
+            setattr(ds, attr, value)
+        except (ValueError, TypeError):
+            if _digest(ds) != before:
+                problems.append(f"{attr} setter raised and left a modified object")
+            if size == nd_:
+                problems.append(f"{attr} setter rejected {form} with exactly {nd_} entries")
+            continue
+        problems += [f"after ds.{attr} = <{form}> on a {nd_}-d dataset: {p}" for p in _inv_problems(ds)]
+        if not _inv_problems(ds) and not np.array_equal(getattr(ds, attr), flat):
+            problems.append(f"{attr} setter stored other values than the flattened argument")
+    arr = np.arange(float(np.prod(_shape(nd_)))).reshape(_shape(nd_)) if nd_ else np.array(1.0)
+    for clsname, kk in [("Dataset", None)] + list(FIXED.items()):
+        if kk is not None and nd_ > kk:
+            continue
+        tgt = nd_ if kk is None else kk
+        try:
+            d2 = _real_cls(clsname).from_array(arr, origin=value, sampling=value)
+        except (ValueError, TypeError):
+            if size == tgt:
+                problems.append(f"{clsname}.from_array rejected {form} with exactly {tgt} entries")
+            continue
+        problems += [f"{clsname}.from_array(origin=<{form}>) on a {nd_}-d array: {p}" for p in _inv_problems(d2)]
+    return dict(violated=bool(problems), observed="; ".join(problems[:4]) or "ok",
+                expected="a nested / 2-d / 0-d calibration argument is accepted iff it holds exactly one entry per axis in total; never stored with another length")
+
+
 def rt_validators(inp):
     """validate_ndinfo / validate_units / ensure_valid_array and the constructors on array-likes of every accepted type"""
     import warnings
     from quantem.core.utils.validators import validate_ndinfo, validate_units, ensure_valid_array
 
+    if "form" in inp:
+        return rt_shaped_calibration(inp)
     warnings.simplefilter("ignore")
     problems = []
     nd_, L, kind = inp["ndim"], inp["len"], inp["kind"]
@@ -1840,6 +1925,10 @@ def rt_validators(inp):
 
 
 def fam_validators(tier="quick", seed=0):
+    for nd_ in range(0, 6):
+        for form in SHAPED_FORMS:
+            for k in ((2, 3) if "k" in form else (2,)):
+                yield dict(ndim=nd_, form=form, k=k)
     for nd_ in range(0, 6):
         for kind in ("scalar", "int", "list", "tuple", "ndarray", "int-ndarray"):
             for L in ([nd_] if kind in ("scalar", "int") else range(0, 7)):
@@ -1987,7 +2076,7 @@ BOUNDED = [
     Bounded.from_rt("conformance of the trusted numpy indexing model with numpy", rt_numpy_model, fam_model,
                     "every 6th (thorough: every) index form of the family above: result shape, sampled elements, source axis of every result axis, view vs copy"),
     Bounded.from_rt("validators / constructors on array-likes", rt_validators, fam_validators,
-                    "ndim 0..5 x lengths 0..6 x scalar/int/list/tuple/ndarray/int-ndarray; ndarray and nested-list data; all five classes"),
+                    "ndim 0..5 x lengths 0..6 x scalar/int/list/tuple/ndarray/int-ndarray, plus nested lists / tuples of rows, 2-d ndarrays of shape (ndim,k), (k,ndim), (ndim,1), (1,ndim) and 0-d arrays through validate_ndinfo, both setters and all five constructors; ndarray and nested-list data"),
 ]
 
 
